@@ -2,7 +2,7 @@
 //!
 //! Only adds read/construct access to private items and cut-point bodies for the
 //! model checker; no behaviour of the crate changes.
-#![allow(missing_docs, private_interfaces, unexpected_cfgs, clippy::too_many_arguments)]
+#![allow(missing_docs, private_interfaces, private_bounds, unexpected_cfgs, clippy::too_many_arguments)]
 
 use super::*;
 
@@ -30,7 +30,11 @@ pub const FIRST_FAILURE_STATE: u8 = 25;
 pub const STATE_DONE_FOREVER: u8 = 24;
 pub const STATE_READ_BLOCK_HEADER: u8 = 3;
 
-pub fn state_from_id(id: u8) -> Option<State> {
+pub fn state_id_valid(id: u8) -> bool {
+    state_from_id(id).is_some()
+}
+
+pub(super) fn state_from_id(id: u8) -> Option<State> {
     Some(match id {
         0 => Start,
         1 => ReadZlibCmf,
